@@ -409,6 +409,15 @@ is_incomplete() const {
 bool CPPType::
 is_equivalent(const CPPType &other) const {
   if (get_subtype() != other.get_subtype()) {
+    // A typedef on the other side stands for the type it names (the relation
+    // is symmetric: CPPTypedefType::is_equivalent unwraps its own side).
+    CPPType *ot = (CPPType *)&other;
+    if (ot->get_subtype() == ST_typedef) {
+      while (ot->get_subtype() == ST_typedef) {
+        ot = ot->as_typedef_type()->_type;
+      }
+      return is_equivalent(*ot);
+    }
     return false;
   }
   return is_equal(&other);
